@@ -22,7 +22,7 @@ TECHNIQUE = 'reference-model monitor (independent DAQmx encoder + byte-level ora
 RULE = ('random DAQmx files from vlib.daqmx.gen_daqmx; non-trivial = >=2 scalers in the file and >=1 value; distinct = '
         '(digital, widths, buffer lengths, per-channel (raw, scaler types/buffers/offsets), per-segment (endian, nchunks, metadata kind))')
 ASSUMPTIONS = ['an acquisition buffer no scaler refers to has zero rows', 'scaled chunk streams are compared with slices of the eager scaled result']
-REQUIRED = ['chunk_streams_collected_first', 'chunk_streams_read_in_loop', 'scalers_decoded_memmap', 'files_with_channel_switched_off', 'scalers_decoded', 'windows_compared', 'chunk_streams_compared', 'cuts_checked', 'contract:receiver.append_scaler_data']
+REQUIRED = ['scalers_decoded_short_reads', 'chunk_streams_collected_first', 'chunk_streams_read_in_loop', 'scalers_decoded_memmap', 'files_with_channel_switched_off', 'scalers_decoded', 'windows_compared', 'chunk_streams_compared', 'cuts_checked', 'contract:receiver.append_scaler_data']
 N = {'quick': 1500, 'thorough': 100000}
 
 
@@ -143,6 +143,26 @@ def run_case(case, ctx):
                 del mf
         except Exception as ex:
             ctx.violation('decode-memmap/%s/raises/%s' % (mode, util.exc_key(ex)), {'exc': util.exc_detail(ex), 'file': f.describe()})
+    # ---- A'': the file supplied as an unbuffered stream that returns at most 48 bytes per call (every metadata field of these
+    #      files is shorter than that; most raw buffers are longer)
+    from checks.c03 import ShortReadStream
+    for mode in ('eager', 'lazy'):
+        try:
+            sf = (TdmsFile.read if mode == 'eager' else TdmsFile.open)(ShortReadStream(blob, 48))
+            try:
+                for ch in f.chans:
+                    r = sf['G'][ch['name']].read_data(scaled=False)
+                    for s in ch['scalers']:
+                        got = r[s['id']] if isinstance(r, dict) else r
+                        ctx.count('scalers_decoded_short_reads')
+                        if not eq(got, f.expected(ch, s)):
+                            ctx.violation('decode-short-read-stream/%s/%s' % (mode, kind), {'chan': ch, 'scaler': s, 'got': C.short(C.image(got)),
+                                                                                         'want': C.short(C.image(f.expected(ch, s))), 'file': f.describe()})
+            finally:
+                if mode == 'lazy':
+                    sf.close()
+        except Exception as ex:
+            ctx.violation('decode-short-read-stream/%s/raises/%s' % (mode, util.exc_key(ex)), {'exc': util.exc_detail(ex), 'file': f.describe()})
     # ---- B + C: lazy windows and chunk streams
     try:
         with TdmsFile.open(io.BytesIO(blob)) as lf:
